@@ -676,3 +676,946 @@ Proof.
       assert (j <> r) by (intros ->; auto).
       destruct (after_bump_soft s4 r A4 j) as (-> & _). auto.
 Qed.
+
+Lemma CV_mutate_push W s b f : PInv s -> CV W s -> b < length s -> CV W (mutate s b f).
+Proof.
+  intros P C Lb. unfold mutate.
+  destruct (Nat.eqb (generation (f (rs_reg (get s b)))) (generation (rs_reg (get s b)))); auto.
+  set (s1 := set s b _).
+  assert (K : skel_eq s s1) by (exact (set_reg_skel s b (f (rs_reg (get s b))))).
+  apply (CV_after_bump_push W s s1 b); auto.
+  - eapply PInv_skel; eauto.
+  - unfold s1. rewrite set_length. auto.
+  - unfold s1. rewrite set_length. auto.
+  - intros i. unfold s1. rewrite get_set. destruct (Nat.eqb i b && Nat.ltb b (length s)) eqn:E; auto.
+    apply andb_true_iff in E. destruct E as (E & _). apply Nat.eqb_eq in E. subst. reflexivity.
+  - intros j N. unfold s1. rewrite get_set_other; auto.
+  - intros y N. unfold Bs, s1. rewrite get_set_other; auto.
+Qed.
+
+(* ---- _setBases of a push registry: everything up to changed() leaves storages and caches alone *)
+Definition keeps (a b : sys) : Prop :=
+  forall i, rs_reg (get b i) = rs_reg (get a i) /\ rs_caches (get b i) = rs_caches (get a i).
+
+Lemma keeps_refl s : keeps s s.
+Proof. intros i. auto. Qed.
+
+Lemma keeps_trans a b c : keeps a b -> keeps b c -> keeps a c.
+Proof. intros H1 H2 i. destruct (H1 i), (H2 i). split; congruence. Qed.
+
+Lemma visit_ro_keeps_fields s r : keeps s (visit_ro s r).
+Proof.
+  intros i. unfold visit_ro. rewrite get_upd.
+  destruct (Nat.eqb i r && Nat.ltb r (length s)) eqn:E; auto.
+  apply andb_true_iff in E. destruct E as (E & _). apply Nat.eqb_eq in E. subst. cbn. auto.
+Qed.
+
+Lemma refresh_ro_keeps_fields f s r : allPush s -> keeps s (refresh_ro f s r).
+Proof.
+  intros A. rewrite refresh_ro_trav; auto.
+  apply (trav_pres visit_ro (fun _ => True)); auto using keeps_refl.
+  - intros; eapply keeps_trans; eauto.
+  - intros; apply visit_ro_keeps_fields.
+Qed.
+
+Lemma set_bases_push_frame s r bs :
+  allPush s -> ranked (Bs s) -> subs_ok s -> ro_coherent_except s r ->
+  r < length s -> (forall b, In b bs -> b < r) ->
+  exists s4, set_bases s r bs = after_bump s4 r /\ PInv s4 /\ length s4 = length s /\
+             (forall i, rs_caches (get s4 i) = rs_caches (get s i)) /\
+             (forall i, store (rs_reg (get s4 i)) = store (rs_reg (get s i))) /\
+             (forall y, y <> r -> Bs s4 y = Bs s y).
+Proof.
+  intros A R S0 C Lr Hbs. rewrite set_bases_push_eq by apply A. cbv zeta.
+  destruct (book_spec (rs_bases (get s r)) bs r s) as (O & B2 & B3 & B4).
+  set (sb := book (rs_bases (get s r)) s r bs) in *.
+  set (s2 := upd sb r (setb bs)).
+  assert (F : forall i, rs_bases (get s2 i) = (if Nat.eqb i r then bs else rs_bases (get s i)) /\
+                        rs_subs (get s2 i) = rs_subs (get sb i) /\
+                        rs_flavour (get s2 i) = rs_flavour (get s i) /\
+                        rs_ro (get s2 i) = rs_ro (get s i)) by (intros; apply s2_fields; auto).
+  assert (K2 : keeps s s2).
+  { intros i. unfold s2. destruct O as (LO & HO). rewrite get_upd.
+    destruct (Nat.eqb i r && Nat.ltb r (length sb)) eqn:E.
+    - apply andb_true_iff in E. destruct E as (E & _). apply Nat.eqb_eq in E. subst.
+      destruct (HO r) as (l & ->). cbn. auto.
+    - destruct (HO i) as (l & ->). cbn. auto. }
+  assert (L2 : length s2 = length s) by (unfold s2; rewrite upd_length; apply O).
+  assert (A2 : allPush s2) by (intros i; destruct (F i) as (_ & _ & -> & _); apply A).
+  assert (R2 : ranked (Bs s2)).
+  { intros y b. unfold Bs. destruct (F y) as (-> & _). destruct (Nat.eqb y r) eqn:E.
+    - apply Nat.eqb_eq in E. subst. auto.
+    - apply R. }
+  assert (S2 : subs_ok s2).
+  { split.
+    - intros i y. destruct (F i) as (_ & -> & _). intros Hy. rewrite L2.
+      destruct (B2 _ _ Hy) as [Hy'|(-> & Hi)]; [apply S0; auto|]. split; auto.
+    - intros x b. unfold Bs. destruct (F x) as (-> & _). destruct (F b) as (_ & -> & _).
+      destruct (Nat.eqb x r) eqn:E.
+      + apply Nat.eqb_eq in E. subst. intros Hb. pose proof (Hbs _ Hb). apply B4; auto; try lia.
+        intros Ho. apply S0; auto.
+      + apply Nat.eqb_neq in E. intros Hb. apply B3; auto. apply S0; auto. }
+  assert (C2 : forall x, x < length s2 -> ~ Reach (Bs s2) x r -> P_ro s2 x).
+  { intros x Lx N. unfold P_ro. destruct (F x) as (_ & _ & _ & ->).
+    assert (x <> r) by (intros ->; apply N, Reach_refl).
+    rewrite C; auto; [|lia]. symmetry. apply fresh_ro_frame; auto; try lia.
+    apply Reach_avoid with (r := r); auto.
+    intros y Hy. unfold Bs. destruct (F y) as (-> & _).
+    apply Nat.eqb_neq in Hy. rewrite Hy. auto. }
+  set (s3 := refresh_ro (length s) s2 r).
+  assert (G3 : graph_eq s2 s3) by (apply refresh_ro_graph; auto).
+  assert (K3 : keeps s2 s3) by (apply refresh_ro_keeps_fields; auto).
+  assert (P3 : PInv s3).
+  { split; [|split; [|split]].
+    - eapply graph_eq_allPush; eauto.
+    - eapply graph_eq_ranked; eauto.
+    - apply (graph_eq_subs_ok _ _ G3 S2).
+    - intros x Lx. destruct G3 as (L3 & _). rewrite <- L3 in Lx. fold (P_ro s3 x). unfold s3.
+      destruct (Reach_dec (Bs s2) r R2 x) as [Y|N].
+      + rewrite <- L2. apply refresh_ro_reaches; auto. lia.
+      + apply refresh_ro_keeps; auto. }
+  exists (upd s3 r bump). split; [reflexivity|]. split; [|split; [|split; [|split]]].
+  - eapply PInv_skel; [apply bump_skel|exact P3].
+  - rewrite upd_length. destruct G3 as (<- & _). auto.
+  - intros i. destruct (bump_soft s3 r i) as (_ & [Pc|Ec]).
+    + destruct (K2 i) as (_ & <-). destruct (K3 i) as (_ & <-).
+      revert Pc. unfold P_c. rewrite get_upd.
+      destruct (Nat.eqb i r && Nat.ltb r (length s3)) eqn:E; auto.
+      apply andb_true_iff in E. destruct E as (E & _). apply Nat.eqb_eq in E. subst. cbn. auto.
+    + rewrite Ec. destruct (K2 i) as (_ & <-). destruct (K3 i) as (_ & <-). reflexivity.
+  - intros i. destruct (bump_soft s3 r i) as (-> & _).
+    destruct (K2 i) as (<- & _). destruct (K3 i) as (<- & _). reflexivity.
+  - intros y N. destruct (bump_skel s3 r) as ((_ & Hb) & _). unfold Bs.
+    destruct (Hb y) as (<- & _). destruct G3 as (_ & H3). destruct (H3 y) as (<- & _).
+    destruct (F y) as (-> & _). apply Nat.eqb_neq in N. rewrite N. reflexivity.
+Qed.
+
+Lemma CV_set_bases_push W s r bs : PInv s -> CV W s -> r < length s -> (forall b, In b bs -> b < r) ->
+  CV W (set_bases s r bs).
+Proof.
+  intros P C Lr Hbs. pose proof P as (A & R & S0 & Co).
+  destruct (set_bases_push_frame s r bs) as (s4 & -> & P4 & L4 & Hc & Hs & Hb); auto.
+  { intros x Lx _. apply Co; auto. }
+  apply (CV_after_bump_push W s s4 r); auto; lia.
+Qed.
+
+Lemma CV_new_reg_push W s bs : PInv s -> CV W s -> (forall b, In b bs -> b < length s) ->
+  CV W (new_reg s Push bs).
+Proof.
+  intros P C Hbs. pose proof P as (Al & R & S0 & Co). unfold new_reg.
+  set (s0 := s ++ [mkRS empty_reg empty_caches [] [] [] [] [] Push]).
+  assert (L0 : length s0 = S (length s)) by (unfold s0; rewrite app_length; cbn; lia).
+  assert (G : forall i, get s0 i = if Nat.ltb i (length s) then get s i
+                                   else if Nat.eqb i (length s) then mkRS empty_reg empty_caches [] [] [] [] [] Push
+                                        else dummy_rs) by (intros; apply get_app_cases).
+  assert (G' : forall i, rs_caches (get s0 i) = rs_caches (get s i) /\ rs_reg (get s0 i) = rs_reg (get s i)).
+  { intros i. rewrite G. destruct (Nat.ltb i (length s)) eqn:E; auto. apply Nat.ltb_ge in E.
+    rewrite (get_oob s i E). destruct (Nat.eqb i (length s)); auto. }
+  destruct (set_bases_push_frame s0 (length s) bs) as (s4 & -> & P4 & L4 & Hc & Hs & Hb); auto; try lia.
+  - intros i. rewrite G. destruct (Nat.ltb i (length s)); [apply Al|].
+    destruct (Nat.eqb i (length s)); reflexivity.
+  - apply app_new_ranked; auto.
+  - split.
+    + intros r y. rewrite G, L0. destruct (Nat.ltb r (length s)).
+      * intros Hy. apply S0 in Hy. lia.
+      * destruct (Nat.eqb r (length s)); cbn; tauto.
+    + intros r b. unfold Bs. rewrite (G r). destruct (Nat.ltb r (length s)) eqn:Lr.
+      * intros Hb. apply Nat.ltb_lt in Lr. pose proof (R _ _ Hb). rewrite G.
+        replace (Nat.ltb b (length s)) with true by (symmetry; apply Nat.ltb_lt; lia). apply S0; auto.
+      * destruct (Nat.eqb r (length s)); cbn; tauto.
+  - intros x Lx N. rewrite L0 in Lx. rewrite G.
+    replace (Nat.ltb x (length s)) with true by (symmetry; apply Nat.ltb_lt; lia).
+    unfold s0. rewrite app_new_fresh; auto; try lia. apply Co; lia.
+  - apply (CV_after_bump_push W s s4 (length s)); auto; try lia.
+    + intros i. rewrite Hc. apply G'.
+    + intros j _. rewrite Hs. destruct (G' j) as (_ & ->). reflexivity.
+    + intros y N. rewrite Hb by auto. unfold Bs. rewrite G.
+      destruct (Nat.ltb y (length s)) eqn:E; auto. apply Nat.ltb_ge in E. rewrite (get_oob s y E).
+      apply Nat.eqb_neq in N. rewrite N. reflexivity.
+Qed.
+
+(* ---- verifying flavour: a registry whose record is untouched stays valid as long as a storage
+   only changes together with its generation (the snapshot then no longer matches) *)
+Lemma cv_ver_frame W s s' i :
+  VInv s -> i < length s -> get s' i = get s i ->
+  (forall j, gen_of s j <= gen_of s' j) ->
+  (forall j, gen_of s j = gen_of s' j -> rs_reg (get s' j) = rs_reg (get s j)) ->
+  cv_at W s i -> cv_at W s' i.
+Proof.
+  intros (Al & R & Sn) Li E M Hr C V'.
+  destruct (Sn i Li) as (Ro & Mem & Le & _).
+  unfold valid_snap in V'. rewrite E, (Al i Li) in V'.
+  destruct (gens_sandwich s s' M _ _ Le V') as (Ev & Eq).
+  assert (Er : ro_regs s' i = ro_regs s i).
+  { unfold ro_regs. rewrite E. apply map_ext_in. intros j Hj. rewrite Ro in Hj.
+    destruct Hj as [<-|Hj]; [rewrite E; reflexivity|]. apply Hr. apply Eq. exact Hj. }
+  unfold ents. rewrite E, Er. apply C. unfold valid_snap. rewrite (Al i Li). exact Ev.
+Qed.
+
+Lemma CV_ver_touch W s s' r :
+  VInv s -> CV W s -> length s <= length s' ->
+  (forall i, i <> r -> i < length s -> get s' i = get s i) ->
+  (forall i, i <> r -> length s <= i -> rs_caches (get s' i) = empty_caches) ->
+  rs_caches (get s' r) = empty_caches ->
+  (forall j, gen_of s j <= gen_of s' j) ->
+  (forall j, gen_of s j = gen_of s' j -> rs_reg (get s' j) = rs_reg (get s j)) ->
+  CV W s'.
+Proof.
+  intros V C L Ot Oo Er M Hr i. destruct (Nat.eq_dec i r) as [->|N]; [apply cv_empty; auto|].
+  destruct (Nat.lt_ge_cases i (length s)) as [Li|Li].
+  - apply (cv_ver_frame W s s' i); auto.
+  - apply cv_empty. auto.
+Qed.
+
+Lemma CV_mutate_ver W s b f : VInv s -> CV W s -> b < length s ->
+  (forall g, generation g <= generation (f g)) -> CV W (mutate s b f).
+Proof.
+  intros V C Lb Mf. unfold mutate.
+  destruct (Nat.eqb (generation (f (rs_reg (get s b)))) (generation (rs_reg (get s b)))) eqn:Eg; auto.
+  apply Nat.eqb_neq in Eg.
+  set (s1 := set s b _).
+  assert (F1 : rs_flavour (get s1 b) = Verifying).
+  { unfold s1. rewrite get_set_same by auto. cbn. apply V. auto. }
+  assert (L1 : length s1 = length s) by (unfold s1; apply set_length).
+  rewrite after_bump_ver by (auto; lia).
+  destruct (lookup_changed_ver false s1 b F1) as (L' & O' & G'); [lia|].
+  assert (Gb : rs_reg (get s1 b) = f (rs_reg (get s b))) by (unfold s1; rewrite get_set_same; auto).
+  apply (CV_ver_touch W s _ b); auto; try lia.
+  - intros i N _. rewrite O' by auto. unfold s1. apply get_set_other; auto.
+  - intros i N Li. rewrite O' by auto. unfold s1. rewrite get_set_other by auto. apply get_oob_caches; auto.
+  - rewrite G'. reflexivity.
+  - intros j. unfold gen_of. destruct (Nat.eq_dec j b) as [->|N].
+    + rewrite G'. cbn [rs_reg]. rewrite Gb. apply Mf.
+    + rewrite O' by auto. unfold s1. rewrite get_set_other; auto.
+  - intros j. unfold gen_of. destruct (Nat.eq_dec j b) as [->|N].
+    + rewrite G'. cbn [rs_reg]. rewrite Gb. intros E. congruence.
+    + intros _. rewrite O' by auto. unfold s1. rewrite get_set_other; auto.
+Qed.
+
+Lemma CV_set_bases_ver W s r bs : VInv s -> CV W s -> r < length s -> CV W (set_bases s r bs).
+Proof.
+  intros V C Lr. pose proof V as (Al & _).
+  rewrite set_bases_ver_eq by auto.
+  set (s4 := upd (visit_ro (upd s r (setb bs)) r) r bump).
+  assert (L4 : length s4 = length s) by (unfold s4, visit_ro; rewrite !upd_length; auto).
+  assert (O4 : forall i, i <> r -> get s4 i = get s i).
+  { intros i N. unfold s4, visit_ro. rewrite !get_upd_other; auto. }
+  assert (G4 : get s4 r = bump (mkRS (rs_reg (get s r)) (rs_caches (get s r)) bs
+                                     (fresh_ro (upd s r (setb bs)) r) (rs_subs (get s r)) (rs_vro (get s r))
+                                     (rs_vgen (get s r)) (rs_flavour (get s r)))).
+  { unfold s4, visit_ro. rewrite get_upd_same by (rewrite !upd_length; auto).
+    rewrite get_upd_same by (rewrite upd_length; auto). rewrite get_upd_same by auto. reflexivity. }
+  assert (F4 : rs_flavour (get s4 r) = Verifying) by (rewrite G4; cbn; auto).
+  destruct (lookup_changed_ver false s4 r F4) as (L' & O' & G'); [lia|].
+  apply (CV_ver_touch W s _ r); auto; try lia.
+  - intros i N _. rewrite O', O4; auto.
+  - intros i N Li. rewrite O', O4 by auto. apply get_oob_caches; auto.
+  - rewrite G'. reflexivity.
+  - intros j. unfold gen_of. destruct (Nat.eq_dec j r) as [->|N].
+    + rewrite G', G4. cbn. lia.
+    + rewrite O', O4; auto.
+  - intros j. unfold gen_of. destruct (Nat.eq_dec j r) as [->|N].
+    + rewrite G', G4. cbn. lia.
+    + intros _. rewrite O', O4; auto.
+Qed.
+
+Lemma CV_new_reg_ver W s bs : VInv s -> CV W s -> CV W (new_reg s Verifying bs).
+Proof.
+  intros V C. unfold new_reg.
+  set (s0 := s ++ [mkRS empty_reg empty_caches [] [] [] [] [] Verifying]).
+  set (n := length s).
+  assert (L0 : length s0 = S n) by (unfold s0, n; rewrite app_length; cbn; lia).
+  assert (G : forall i, get s0 i = if Nat.ltb i n then get s i
+                                   else if Nat.eqb i n
+                                        then mkRS empty_reg empty_caches [] [] [] [] [] Verifying
+                                        else dummy_rs) by (intros; apply get_app_cases).
+  assert (Fn : rs_flavour (get s0 n) = Verifying).
+  { rewrite G, Nat.ltb_irrefl, Nat.eqb_refl. reflexivity. }
+  rewrite set_bases_ver_eq by (auto; lia).
+  set (s4 := upd (visit_ro (upd s0 n (setb bs)) n) n bump).
+  assert (L4 : length s4 = S n) by (unfold s4, visit_ro; rewrite !upd_length; auto).
+  assert (O4 : forall i, i <> n -> get s4 i = get s0 i).
+  { intros i N. unfold s4, visit_ro. rewrite !get_upd_other; auto. }
+  assert (G4 : rs_flavour (get s4 n) = Verifying /\ generation (rs_reg (get s4 n)) = 1).
+  { unfold s4, visit_ro. rewrite get_upd_same by (rewrite !upd_length; lia).
+    rewrite get_upd_same by (rewrite upd_length; lia). rewrite get_upd_same by lia.
+    rewrite G, Nat.ltb_irrefl, Nat.eqb_refl. cbn. auto. }
+  destruct G4 as (F4 & Gen4).
+  destruct (lookup_changed_ver false s4 n F4) as (L' & O' & G'); [lia|].
+  assert (Old : forall i, i < n -> get s0 i = get s i).
+  { intros i Li. rewrite G. replace (Nat.ltb i n) with true; auto. symmetry. apply Nat.ltb_lt; auto. }
+  assert (Dn : gen_of s n = 0) by (unfold gen_of; rewrite get_oob; auto).
+  apply (CV_ver_touch W s _ n); auto; try (fold n; lia).
+  - intros i N Li. rewrite O', O4 by auto. apply Old. auto.
+  - intros i N Li. fold n in Li. rewrite O', O4 by auto. rewrite G.
+    replace (Nat.ltb i n) with false by (symmetry; apply Nat.ltb_ge; auto).
+    apply Nat.eqb_neq in N. rewrite N. reflexivity.
+  - rewrite G'. reflexivity.
+  - intros j. destruct (Nat.eq_dec j n) as [->|N]; [lia|].
+    unfold gen_of. rewrite O', O4 by auto. rewrite G.
+    destruct (Nat.ltb j n) eqn:E; auto. apply Nat.ltb_ge in E. rewrite (get_oob s j) by (fold n; lia).
+    apply Nat.eqb_neq in N. rewrite N. auto.
+  - intros j. destruct (Nat.eq_dec j n) as [->|N].
+    + unfold gen_of at 2. rewrite G'. cbn [rs_reg]. rewrite Gen4, Dn. discriminate.
+    + intros _. rewrite O', O4 by auto. rewrite G.
+      destruct (Nat.ltb j n) eqn:E; auto. apply Nat.ltb_ge in E. rewrite (get_oob s j) by (fold n; lia).
+      apply Nat.eqb_neq in N. rewrite N. auto.
+Qed.
+
+(* ---- the entry points are transparent functions of the caches *)
+Lemma tr_lookup req p n : transparent_f (fun ul _ _ c => lookup ul c req p n).
+Proof. intros ul ua us c H. apply (lookup_ok ul ua us); auto. Qed.
+Lemma tr_lookup1 req p n : transparent_f (fun ul _ _ c => lookup1 ul c req p n).
+Proof. intros ul ua us c H. apply (lookup1_ok ul ua us); auto. Qed.
+Lemma tr_lookupAll req p : transparent_f (fun _ ua _ c => lookupAll ua c req p).
+Proof. intros ul ua us c H. apply (lookupAll_ok ul ua us); auto. Qed.
+Lemma tr_names req p : transparent_f (fun _ ua _ c => names ua c req p).
+Proof. intros ul ua us c H. apply (names_ok ul ua us); auto. Qed.
+Lemma tr_subscriptions req p : transparent_f (fun _ _ us c => subscriptions us c req p).
+Proof. intros ul ua us c H. apply (subscriptions_ok ul ua us); auto. Qed.
+Lemma tr_adapter_hook call p o n : transparent_f (fun ul _ _ c => adapter_hook ul call c p o n).
+Proof. intros ul ua us c H. apply (adapter_hook_ok ul ua us); auto. Qed.
+Lemma tr_queryMultiAdapter call os p n : transparent_f (fun ul _ _ c => queryMultiAdapter ul call c os p n).
+Proof. intros ul ua us c H. apply (queryMultiAdapter_ok ul ua us); auto. Qed.
+Lemma tr_subscribers call os p : transparent_f (fun _ _ us c => subscribers us call c os p).
+Proof. intros ul ua us c H. apply (subscribers_ok ul ua us); auto. Qed.
+
+(* ---- every well-formed operation keeps CacheValid (static world) *)
+Lemma CV_step W call fl s o : Inv fl s -> CV W s -> wf_op fl (length s) o = true ->
+  CV W (fst (step W call s o)).
+Proof.
+  intros I C Wf.
+  destruct o; cbn [step wf_op fst] in *; try rewrite fst_let; try discriminate; auto;
+    try (apply Nat.ltb_lt in Wf;
+         first [ apply (CV_with_lookup W fl); auto;
+                 first [apply tr_lookup | apply tr_lookup1 | apply tr_lookupAll | apply tr_names
+                       | apply tr_subscriptions | apply tr_adapter_hook | apply tr_queryMultiAdapter
+                       | apply tr_subscribers]
+               | destruct fl; [apply CV_mutate_push; auto
+                              | apply CV_mutate_ver; auto; intros;
+                                first [apply register_gen | apply unregister_gen | apply subscribe_gen
+                                      | apply unsubscribe_gen]] ]; fail).
+  - apply andb_true_iff in Wf. destruct Wf as (Fl & Hb). pose proof (forallb_ltb _ _ Hb).
+    destruct fl, fl0; try discriminate; [apply CV_new_reg_push | apply CV_new_reg_ver]; auto.
+  - apply andb_true_iff in Wf. destruct Wf as (Lr & Hb). apply Nat.ltb_lt in Lr.
+    pose proof (forallb_ltb _ _ Hb).
+    destruct fl; [apply CV_set_bases_push | apply CV_set_bases_ver]; auto.
+Qed.
+
+(* ---- re-basing a specification: Specification.changed reaching the lookup objects *)
+Lemma Inv_lookup_changed fl b s r : Inv fl s -> r < length s -> Inv fl (lookup_changed b s r).
+Proof.
+  destruct fl; intros I Lr.
+  - eapply PInv_skel; [|exact I]. apply lookup_changed_push_skel. apply I.
+  - apply VInv_lookup_changed; auto.
+Qed.
+
+Lemma lookup_changed_facts fl b s r : Inv fl s -> r < length s ->
+  length (lookup_changed b s r) = length s /\
+  (forall j, rs_reg (get (lookup_changed b s r) j) = rs_reg (get s j)) /\
+  (forall i, i <> r -> get (lookup_changed b s r) i = get s i) /\
+  rs_caches (get (lookup_changed b s r) r) = empty_caches.
+Proof.
+  destruct fl; intros I Lr.
+  - destruct I as (Al & _). rewrite lookup_changed_push by apply Al.
+    split; [apply upd_length|]. split; [|split].
+    + intros j. rewrite get_upd. destruct (Nat.eqb j r && Nat.ltb r (length s)) eqn:E; auto.
+      apply andb_true_iff in E. destruct E as (E & _). apply Nat.eqb_eq in E. subst. reflexivity.
+    + intros i N. apply get_upd_other; auto.
+    + rewrite get_upd_same; auto.
+  - destruct I as (Al & _). destruct (lookup_changed_ver b s r (Al r Lr) Lr) as (L & O & G).
+    split; auto. split; [|split]; auto.
+    + intros j. destruct (Nat.eq_dec j r) as [->|N]; [rewrite G; reflexivity|rewrite O; auto].
+    + rewrite G. reflexivity.
+Qed.
+
+Section SpecChanged.
+  Variable fl : flavour.
+  Variable T : nat -> bool.      (* which lookup objects are reached *)
+  Variable s : sys.
+
+  Definition sc_step (acc : sys) (r : nat) : sys := if T r then lookup_changed false acc r else acc.
+
+  Definition SCJ (acc : sys) (done : list nat) : Prop :=
+    Inv fl acc /\ length acc = length s /\
+    (forall j, rs_reg (get acc j) = rs_reg (get s j)) /\
+    (forall i, In i done -> T i = true -> rs_caches (get acc i) = empty_caches) /\
+    (forall i, ~ In i done \/ T i = false -> get acc i = get s i).
+
+  Lemma sc_fold : forall l acc done, (forall k, In k l -> k < length s) -> SCJ acc done ->
+    SCJ (fold_left sc_step l acc) (done ++ l).
+  Proof.
+    induction l as [|k l IH]; intros acc done Hl J; cbn [fold_left].
+    - rewrite app_nil_r. exact J.
+    - replace (done ++ k :: l) with ((done ++ [k]) ++ l) by (rewrite <- app_assoc; reflexivity).
+      apply IH; [intros; apply Hl; right; auto|].
+      destruct J as (I & L & Rg & Cl & Un). unfold sc_step.
+      assert (Lk : k < length acc) by (rewrite L; apply Hl; left; auto).
+      destruct (T k) eqn:Tk.
+      + destruct (lookup_changed_facts fl false acc k I Lk) as (L' & Rg' & O' & E').
+        split; [apply Inv_lookup_changed; auto|]. split; [congruence|]. split; [|split].
+        * intros j. rewrite Rg'. apply Rg.
+        * intros i Hi Ti. destruct (Nat.eq_dec i k) as [->|N]; auto.
+          rewrite O' by auto. apply in_app_iff in Hi. destruct Hi as [Hi|[Hi|[]]]; [auto|congruence].
+        * intros i Hi. assert (N : i <> k).
+          { intros ->. destruct Hi as [Hi|Hi]; [apply Hi; apply in_app_iff; right; left; auto|congruence]. }
+          rewrite O' by auto. apply Un. destruct Hi as [Hi|Hi]; auto. left. intros H. apply Hi.
+          apply in_app_iff; auto.
+      + split; auto. split; auto. split; auto. split.
+        * intros i Hi Ti. apply in_app_iff in Hi. destruct Hi as [Hi|[Hi|[]]]; [auto|congruence].
+        * intros i Hi. apply Un. destruct Hi as [Hi|Hi]; auto. left. intros H. apply Hi.
+          apply in_app_iff; auto.
+  Qed.
+End SpecChanged.
+
+Lemma spec_changed_facts fl g x s : Inv fl s ->
+  let s' := spec_changed g x s in
+  Inv fl s' /\ length s' = length s /\
+  (forall j, rs_reg (get s' j) = rs_reg (get s j)) /\
+  (forall i, i < length s -> touched g x (rs_caches (get s i)) = true -> rs_caches (get s' i) = empty_caches) /\
+  (forall i, length s <= i \/ touched g x (rs_caches (get s i)) = false -> get s' i = get s i).
+Proof.
+  intros I. cbv zeta.
+  pose proof (sc_fold fl (fun r => touched g x (rs_caches (get s r))) s (seq 0 (length s)) s []) as H.
+  cbn [app] in H. destruct H as (I' & L' & Rg & Cl & Un).
+  - intros k Hk. apply in_seq in Hk. lia.
+  - split; auto. split; auto. split; auto. split; [intros i []|auto].
+  - unfold spec_changed. unfold sc_step in *.
+    split; auto. split; auto. split; auto. split.
+    + intros i Li Ti. apply Cl; auto. apply in_seq. lia.
+    + intros i [Li|Ti]; apply Un; auto. left. intros Hi. apply in_seq in Hi. lia.
+Qed.
+
+Lemma CV_spec_changed fl g ifs x bs s : Inv fl s -> CV (world_of g ifs) s ->
+  CV (world_of (set_spec_bases g x bs) ifs) (spec_changed g x s).
+Proof.
+  intros I C. destruct (spec_changed_facts fl g x s I) as (I' & L' & Rg & Cl & Un).
+  intros i. destruct (Nat.lt_ge_cases i (length s)) as [Li|Li].
+  - destruct (touched g x (rs_caches (get s i))) eqn:Ti.
+    + apply cv_empty. apply Cl; auto.
+    + assert (E : get (spec_changed g x s) i = get s i) by (apply Un; auto).
+      apply (cv_frame (world_of g ifs) _ s _ i); auto.
+      * unfold valid_snap. rewrite E. destruct (rs_flavour (get s i)); auto.
+        rewrite (gens_same_regs s); auto.
+      * rewrite E. reflexivity.
+      * rewrite (ro_regs_same_regs s); auto. rewrite E. reflexivity.
+      * intros y Hy. apply untouched_sro with (c := rs_caches (get s i)); auto.
+  - apply cv_empty. rewrite Un by auto. apply get_oob_caches; auto.
+Qed.
+
+(* ---- the combined invariant of Model/CacheSys.v states *)
+Definition CInv (fl : flavour) (st : cstate) : Prop :=
+  Inv fl (cs_sys st) /\ CV (world_of (cs_g st) (cs_if st)) (cs_sys st).
+
+Lemma CInv_init fl g ifs : CInv fl (mkCS g ifs []).
+Proof. split; [apply Inv_nil|apply CV_nil]. Qed.
+
+Lemma cstep_sys_CReg call st o :
+  cs_sys (fst (cstep call st (CReg o))) = fst (step (world_of (cs_g st) (cs_if st)) call (cs_sys st) o) /\
+  cs_g (fst (cstep call st (CReg o))) = cs_g st /\ cs_if (fst (cstep call st (CReg o))) = cs_if st /\
+  snd (cstep call st (CReg o)) = snd (step (world_of (cs_g st) (cs_if st)) call (cs_sys st) o).
+Proof.
+  cbn [cstep]. destruct (step (world_of (cs_g st) (cs_if st)) call (cs_sys st) o); cbn. auto.
+Qed.
+
+Lemma CInv_step call fl st o : CInv fl st -> cwf_op fl (length (cs_sys st)) o = true ->
+  CInv fl (fst (cstep call st o)) /\
+  length (cs_sys (fst (cstep call st o))) = cn_after (length (cs_sys st)) o.
+Proof.
+  intros (I & C) Wf. destruct o as [o|x bs].
+  - destruct (cstep_sys_CReg call st o) as (Es & Eg & Ei & _). unfold CInv. rewrite Es, Eg, Ei.
+    cbn [cwf_op cn_after] in *.
+    destruct (Inv_step (world_of (cs_g st) (cs_if st)) call fl _ o I Wf) as (I' & L').
+    split; auto. split; auto. apply (CV_step _ call fl); auto.
+  - cbn [cstep fst cs_sys cs_g cs_if cn_after]. unfold CInv. cbn [cs_sys cs_g cs_if].
+    destruct (spec_changed_facts fl (cs_g st) x (cs_sys st) I) as (I' & L' & _).
+    split; auto. split; auto. apply (CV_spec_changed fl); auto.
+Qed.
+
+Lemma CInv_final call fl : forall ops st, CInv fl st -> cwf_hist fl (length (cs_sys st)) ops = true ->
+  CInv fl (cfinal call st ops).
+Proof.
+  induction ops as [|o ops IH]; intros st J Wf; cbn [cfinal fold_left]; auto.
+  cbn [cwf_hist] in Wf. apply andb_true_iff in Wf. destruct Wf as (Wo & Wf).
+  destruct (CInv_step call fl st o J Wo) as (J' & L'). apply IH; auto. rewrite L'. auto.
+Qed.
+
+(* ================================================================== Part 5: the theorems *)
+
+Lemma pure_answer_ext W call ch ch' q : (forall r, ch r = ch' r) -> pure_answer W call ch q = pure_answer W call ch' q.
+Proof. intros H. destruct q; cbn [pure_answer]; try rewrite H; reflexivity. Qed.
+
+(* in a good state every lookup-family operation answers its pure answer over the current chain *)
+Lemma step_answer_chain W call fl s q : Inv fl s -> CV W s -> wf_op fl (length s) q = true ->
+  is_lookup q = true -> snd (step W call s q) = pure_answer W call (chain_regs s) q.
+Proof.
+  intros I C Wf Q.
+  destruct q; try discriminate; cbn [step pure_answer wf_op] in *; apply Nat.ltb_lt in Wf;
+    rewrite snd_let; rewrite (with_lookup_answer W fl) by
+      (auto; first [apply tr_lookup | apply tr_lookup1 | apply tr_lookupAll | apply tr_names
+                   | apply tr_subscriptions | apply tr_adapter_hook | apply tr_queryMultiAdapter
+                   | apply tr_subscribers]);
+    reflexivity.
+Qed.
+
+(* ---- dropping every cache *)
+Lemma get_drop s i : get (drop_caches s) i = set_caches (get s i) empty_caches.
+Proof.
+  unfold drop_caches, get.
+  change dummy_rs with (set_caches dummy_rs empty_caches) at 1.
+  apply (map_nth (fun x : rstate => set_caches x empty_caches)).
+Qed.
+
+Lemma drop_length s : length (drop_caches s) = length s.
+Proof. apply map_length. Qed.
+
+Lemma drop_skel s : skel_eq s (drop_caches s).
+Proof.
+  split; [split; [symmetry; apply drop_length|]|]; intros i; rewrite get_drop; cbn; auto.
+Qed.
+
+Lemma drop_CV W s : CV W (drop_caches s).
+Proof. intros i. apply cv_empty. rewrite get_drop. reflexivity. Qed.
+
+Lemma drop_Inv fl s : Inv fl s -> Inv fl (drop_caches s).
+Proof.
+  destruct fl; intros I.
+  - eapply PInv_skel; [apply drop_skel|exact I].
+  - destruct I as (Al & R & Sn).
+    assert (F : forall i, rs_reg (get (drop_caches s) i) = rs_reg (get s i) /\
+                          rs_bases (get (drop_caches s) i) = rs_bases (get s i) /\
+                          rs_ro (get (drop_caches s) i) = rs_ro (get s i) /\
+                          rs_vro (get (drop_caches s) i) = rs_vro (get s i) /\
+                          rs_vgen (get (drop_caches s) i) = rs_vgen (get s i) /\
+                          rs_flavour (get (drop_caches s) i) = rs_flavour (get s i))
+      by (intros i; rewrite get_drop; cbn; repeat split; reflexivity).
+    split; [|split].
+    + intros i Li. rewrite drop_length in Li. destruct (F i) as (_ & _ & _ & _ & _ & ->). auto.
+    + intros y b. unfold Bs. destruct (F y) as (_ & -> & _). apply R.
+    + intros x Lx. rewrite drop_length in Lx. apply (snap_frame s _ x); auto; try apply F.
+      * rewrite drop_length. lia.
+      * intros i. unfold gen_of. destruct (F i) as (-> & _). auto.
+      * intros i. unfold Bs. destruct (F i) as (_ & -> & _). congruence.
+      * unfold Bs. destruct (F x) as (_ & -> & _). auto.
+Qed.
+
+Lemma chain_regs_ext s s' r : length s = length s' ->
+  (forall i, rs_reg (get s i) = rs_reg (get s' i)) -> (forall i, Bs s i = Bs s' i) ->
+  chain_regs s r = chain_regs s' r.
+Proof.
+  intros L Rg B. unfold chain_regs. rewrite (fresh_ro_ext s s' r L B). apply map_ext. auto.
+Qed.
+
+Lemma drop_chain s r : chain_regs (drop_caches s) r = chain_regs s r.
+Proof.
+  apply chain_regs_ext.
+  - apply drop_length.
+  - intros i. rewrite get_drop. reflexivity.
+  - intros i. unfold Bs. rewrite get_drop. reflexivity.
+Qed.
+
+(* state form, one step: in a good state the caches do not influence any lookup-family answer *)
+Lemma transparent_state W call fl s q : Inv fl s -> CV W s -> wf_op fl (length s) q = true ->
+  is_lookup q = true -> snd (step W call s q) = snd (step W call (drop_caches s) q).
+Proof.
+  intros I C Wf Q. rewrite (step_answer_chain W call fl s q); auto.
+  rewrite (step_answer_chain W call fl (drop_caches s) q); auto using drop_Inv, drop_CV.
+  - apply pure_answer_ext. intros r. symmetry. apply drop_chain.
+  - rewrite drop_length. auto.
+Qed.
+
+(* ---- the part of a system that mutations read and write (everything but the lookup objects'
+   private state: caches, cached ro, snapshots) *)
+Definition core1 (x y : rstate) : Prop :=
+  rs_reg x = rs_reg y /\ rs_bases x = rs_bases y /\ rs_subs x = rs_subs y /\ rs_flavour x = rs_flavour y.
+
+Definition core_eq (a b : sys) : Prop := length a = length b /\ forall i, core1 (get a i) (get b i).
+
+Lemma core1_refl x : core1 x x.
+Proof. repeat split. Qed.
+Lemma core1_sym x y : core1 x y -> core1 y x.
+Proof. intros (A & B & C & D). repeat split; auto. Qed.
+Lemma core1_trans x y z : core1 x y -> core1 y z -> core1 x z.
+Proof. intros (A & B & C & D) (A' & B' & C' & D'). repeat split; congruence. Qed.
+
+Lemma core_refl s : core_eq s s.
+Proof. split; auto. intros; apply core1_refl. Qed.
+Lemma core_sym a b : core_eq a b -> core_eq b a.
+Proof. intros (L & H). split; auto. intros; apply core1_sym; auto. Qed.
+Lemma core_trans a b c : core_eq a b -> core_eq b c -> core_eq a c.
+Proof. intros (L & H) (L' & H'). split; [congruence|]. intros i. eapply core1_trans; eauto. Qed.
+
+Lemma core_set_cong a b r x y : core_eq a b -> core1 x y -> core_eq (set a r x) (set b r y).
+Proof.
+  intros (L & H) Hx. split; [rewrite !set_length; auto|]. intros i. rewrite !get_set, L.
+  destruct (Nat.eqb i r && Nat.ltb r (length b)); auto.
+Qed.
+
+Lemma core_upd_cong a b r h : core_eq a b -> (forall x y, core1 x y -> core1 (h x) (h y)) ->
+  core_eq (upd a r h) (upd b r h).
+Proof. intros E Hh. unfold upd. apply core_set_cong; auto. apply Hh. apply E. Qed.
+
+Lemma core_set_pres s r x : core1 (get s r) x -> core_eq s (set s r x).
+Proof.
+  intros Hx. split; [rewrite set_length; auto|]. intros i. rewrite get_set.
+  destruct (Nat.eqb i r && Nat.ltb r (length s)) eqn:E; [|apply core1_refl].
+  apply andb_true_iff in E. destruct E as (E & _). apply Nat.eqb_eq in E. subst. auto.
+Qed.
+
+Lemma core_upd_pres s r h : (forall x, core1 x (h x)) -> core_eq s (upd s r h).
+Proof. intros Hh. unfold upd. apply core_set_pres. apply Hh. Qed.
+
+Lemma core_fold_pres {B} (F : sys -> B -> sys) l : (forall a x, core_eq a (F a x)) ->
+  forall s, core_eq s (fold_left F l s).
+Proof.
+  intros HF. induction l as [|x l IH]; intros s; cbn [fold_left]; [apply core_refl|].
+  eapply core_trans; [apply HF|apply IH].
+Qed.
+
+Lemma core_fold_cong {B} (F : sys -> B -> sys) l :
+  (forall a b x, core_eq a b -> core_eq (F a x) (F b x)) ->
+  forall a b, core_eq a b -> core_eq (fold_left F l a) (fold_left F l b).
+Proof.
+  intros HF. induction l as [|x l IH]; intros a b E; cbn [fold_left]; auto.
+Qed.
+
+Lemma refresh_ro_core : forall f s r, core_eq s (refresh_ro f s r).
+Proof.
+  induction f as [|f IH]; intros s r; cbn [refresh_ro].
+  - apply core_set_pres. repeat split.
+  - set (s1 := set s r _). assert (E1 : core_eq s s1) by (apply core_set_pres; repeat split).
+    destruct (rs_flavour (get s r)); auto.
+    eapply core_trans; [exact E1|]. apply core_fold_pres. intros; apply IH.
+Qed.
+
+Lemma lookup_changed_core b s r : core_eq s (lookup_changed b s r).
+Proof.
+  unfold lookup_changed. destruct (rs_flavour (get s r)) eqn:F.
+  - apply core_set_pres. repeat split. auto.
+  - eapply core_trans; [apply (refresh_ro_core 0 s r)|].
+    set (s0 := refresh_ro 0 s r).
+    assert (F0 : rs_flavour (get s0 r) = Verifying).
+    { destruct (refresh_ro_core 0 s r) as (_ & H). destruct (H r) as (_ & _ & _ & Hf).
+      unfold s0. rewrite <- Hf. auto. }
+    apply core_set_pres. repeat split. auto.
+Qed.
+
+Lemma bump_core1 x y : core1 x y -> core1 (bump x) (bump y).
+Proof. intros (A & B & C & D). unfold bump. repeat split; cbn; congruence. Qed.
+
+Lemma visit_cong a b r : core_eq a b ->
+  core_eq (lookup_changed false (upd a r bump) r) (lookup_changed false (upd b r bump) r).
+Proof.
+  intros E. eapply core_trans; [apply core_sym, lookup_changed_core|].
+  eapply core_trans; [|apply lookup_changed_core]. apply core_upd_cong; auto. apply bump_core1.
+Qed.
+
+Lemma sub_changed_cong : forall f a b r, core_eq a b -> core_eq (sub_changed f a r) (sub_changed f b r).
+Proof.
+  induction f as [|f IH]; intros a b r E; cbn [sub_changed]; [apply visit_cong; auto|].
+  pose proof (visit_cong a b r E) as E1.
+  set (a1 := lookup_changed false (upd a r bump) r) in *.
+  set (b1 := lookup_changed false (upd b r bump) r) in *.
+  destruct E1 as (L1 & H1). destruct (H1 r) as (_ & _ & Sb & Fl). rewrite Sb, Fl.
+  destruct (rs_flavour (get b1 r)); [|split; auto].
+  apply core_fold_cong; [|split; auto]. intros; apply IH; auto.
+Qed.
+
+Lemma after_bump_cong a b r : core_eq a b -> core_eq (after_bump a r) (after_bump b r).
+Proof.
+  intros E. unfold after_bump.
+  assert (E1 : core_eq (lookup_changed false a r) (lookup_changed false b r)).
+  { eapply core_trans; [apply core_sym, lookup_changed_core|].
+    eapply core_trans; [exact E|apply lookup_changed_core]. }
+  destruct E as (L & _). rewrite L.
+  destruct E1 as (L1 & H1). destruct (H1 r) as (_ & _ & Sb & Fl). rewrite Sb, Fl.
+  destruct (rs_flavour (get (lookup_changed false b r) r)); [|split; auto].
+  apply core_fold_cong; [|split; auto]. intros; apply sub_changed_cong; auto.
+Qed.
+
+Lemma mutate_cong a b r f : core_eq a b -> core_eq (mutate a r f) (mutate b r f).
+Proof.
+  intros E. unfold mutate. destruct E as (L & H). destruct (H r) as (Rg & Bb & Sb & Fl). rewrite Rg.
+  destruct (Nat.eqb (generation (f (rs_reg (get b r)))) (generation (rs_reg (get b r)))); [split; auto|].
+  apply after_bump_cong. apply core_set_cong; [split; auto|]. repeat split; auto.
+Qed.
+
+Lemma set_bases_cong a b r bs : core_eq a b -> core_eq (set_bases a r bs) (set_bases b r bs).
+Proof.
+  intros E. unfold set_bases. pose proof E as (L & H). destruct (H r) as (Rg & Bb & Sb & Fl).
+  rewrite Bb, Fl, L.
+  apply after_bump_cong. apply core_upd_cong; [|apply bump_core1].
+  eapply core_trans; [apply core_sym, refresh_ro_core|].
+  eapply core_trans; [|apply refresh_ro_core].
+  apply core_upd_cong; [|intros x y (A & B & C & D); repeat split; cbn; auto].
+  destruct (rs_flavour (get b r)); auto.
+  apply core_fold_cong.
+  - intros a' b' x E'. destruct (mem x (rs_bases (get b r))); auto.
+    apply core_upd_cong; auto. intros u v (A & B & C & D). repeat split; cbn; try rewrite C; auto.
+  - apply core_fold_cong; auto.
+    intros a' b' x E'. destruct (mem x bs); auto.
+    apply core_upd_cong; auto. intros u v (A & B & C & D). repeat split; cbn; try rewrite C; auto.
+Qed.
+
+Lemma core_app_cong a b x : core_eq a b -> core_eq (a ++ [x]) (b ++ [x]).
+Proof.
+  intros (L & H). split; [rewrite !app_length; cbn; lia|]. intros i. rewrite !get_app_cases, L.
+  destruct (Nat.ltb i (length b)); auto. apply core1_refl.
+Qed.
+
+Lemma verify_core s r : core_eq s (verify s r).
+Proof.
+  unfold verify. destruct (rs_flavour (get s r)); [apply core_refl|].
+  destruct (lspec_eqb _ _); [apply core_refl|apply lookup_changed_core].
+Qed.
+
+Lemma with_lookup_core W {A} s r (f : _ -> _ -> _ -> caches -> caches * A) :
+  core_eq s (fst (with_lookup W s r f)).
+Proof.
+  rewrite with_lookup_fst'. eapply core_trans; [apply verify_core|].
+  apply core_upd_pres. intros x. repeat split.
+Qed.
+
+(* queries leave the core alone; mutations act on it alike *)
+Lemma step_query_core W call s o : is_mutation o = false -> core_eq s (fst (step W call s o)).
+Proof.
+  intros Q. destruct o; try discriminate; cbn [step fst]; try rewrite fst_let;
+    first [apply with_lookup_core | apply core_refl].
+Qed.
+
+Lemma step_mutation_cong W call a b o : is_mutation o = true -> core_eq a b ->
+  core_eq (fst (step W call a o)) (fst (step W call b o)).
+Proof.
+  intros M E. destruct o; try discriminate; cbn [step fst].
+  - unfold new_reg. destruct E as (L & H). rewrite L. apply set_bases_cong. apply core_app_cong. split; auto.
+  - apply set_bases_cong; auto.
+  - apply mutate_cong; auto.
+  - apply mutate_cong; auto.
+  - apply mutate_cong; auto.
+  - apply mutate_cong; auto.
+  - apply after_bump_cong. destruct E as (L & H). destruct (H r) as (Rg & Bb & Sb & Fl).
+    apply core_set_cong; [split; auto|]. repeat split; cbn; try congruence.
+    rewrite Fl, Sb. reflexivity.
+Qed.
+
+Lemma spec_changed_core g x s : core_eq s (spec_changed g x s).
+Proof.
+  unfold spec_changed. apply core_fold_pres. intros a r.
+  destruct (touched g x (rs_caches (get s r))); [apply lookup_changed_core|apply core_refl].
+Qed.
+
+Lemma core_chain a b r : core_eq a b -> chain_regs a r = chain_regs b r.
+Proof.
+  intros (L & H). apply chain_regs_ext; auto.
+  - intros i. apply H.
+  - intros i. unfold Bs. apply H.
+Qed.
+
+(* ---- erased histories *)
+Lemma cwf_erase fl : forall ops n, cwf_hist fl n ops = true -> cwf_hist fl n (erase_lookups ops) = true.
+Proof.
+  induction ops as [|o ops IH]; intros n H; auto.
+  cbn [cwf_hist] in H. apply andb_true_iff in H. destruct H as (Ho & H).
+  unfold erase_lookups. cbn [filter]. fold (erase_lookups ops).
+  destruct (cis_mutation o) eqn:M.
+  - cbn [cwf_hist]. rewrite Ho. cbn. apply IH; auto.
+  - replace (cn_after n o) with n in H; [apply IH; auto|].
+    destruct o as [o|]; [|discriminate]. destruct o; try discriminate; reflexivity.
+Qed.
+
+Definition same_world (a b : cstate) : Prop := cs_g a = cs_g b /\ cs_if a = cs_if b.
+
+Lemma erase_sim call fl : forall ops st1 st2,
+  CInv fl st1 -> CInv fl st2 -> same_world st1 st2 -> core_eq (cs_sys st1) (cs_sys st2) ->
+  cwf_hist fl (length (cs_sys st1)) ops = true ->
+  let f1 := cfinal call st1 ops in
+  let f2 := cfinal call st2 (erase_lookups ops) in
+  CInv fl f1 /\ CInv fl f2 /\ same_world f1 f2 /\ core_eq (cs_sys f1) (cs_sys f2).
+Proof.
+  induction ops as [|o ops IH]; intros st1 st2 J1 J2 Sw E Wf; cbn zeta.
+  - cbn. auto.
+  - cbn [cwf_hist] in Wf. apply andb_true_iff in Wf. destruct Wf as (Wo & Wf).
+    destruct (CInv_step call fl st1 o J1 Wo) as (J1' & L1').
+    unfold erase_lookups. cbn [filter cfinal fold_left]. fold (erase_lookups ops).
+    destruct Sw as (Sg & Si).
+    destruct (cis_mutation o) eqn:M.
+    + cbn [cfinal fold_left].
+      assert (Wo2 : cwf_op fl (length (cs_sys st2)) o = true) by (destruct E as (<- & _); auto).
+      destruct (CInv_step call fl st2 o J2 Wo2) as (J2' & L2').
+      apply IH; auto.
+      * destruct o as [o|x bs].
+        -- destruct (cstep_sys_CReg call st1 o) as (_ & G1 & I1 & _).
+           destruct (cstep_sys_CReg call st2 o) as (_ & G2 & I2 & _).
+           split; congruence.
+        -- split; cbn; congruence.
+      * destruct o as [o|x bs].
+        -- destruct (cstep_sys_CReg call st1 o) as (-> & _).
+           destruct (cstep_sys_CReg call st2 o) as (-> & _).
+           rewrite <- Sg, <- Si. apply step_mutation_cong; auto.
+        -- cbn [cstep fst cs_sys].
+           eapply core_trans; [apply core_sym, spec_changed_core|].
+           eapply core_trans; [exact E|apply spec_changed_core].
+      * rewrite L1'. auto.
+    + destruct o as [o|x bs]; [|discriminate]. cbn [cis_mutation] in M.
+      destruct (cstep_sys_CReg call st1 o) as (Es & G1 & I1 & _).
+      apply IH; auto.
+      * split; congruence.
+      * rewrite Es. eapply core_trans; [apply core_sym, step_query_core; auto|exact E].
+      * rewrite L1'. auto.
+Qed.
+
+(* bookkeeping on runs *)
+Lemma crun_app call : forall a st b, crun call st (a ++ b) = crun call st a ++ crun call (cfinal call st a) b.
+Proof.
+  induction a as [|o a IH]; intros st b; cbn [app crun cfinal fold_left]; auto.
+  destruct (cstep call st o) as [st' ans] eqn:E. cbn [fst]. rewrite IH. reflexivity.
+Qed.
+
+Lemma crun_length call : forall a st, length (crun call st a) = length a.
+Proof.
+  induction a as [|o a IH]; intros st; cbn [crun length]; auto.
+  destruct (cstep call st o). cbn. rewrite IH. reflexivity.
+Qed.
+
+Lemma crun_nth call pre o post st d :
+  nth (length pre) (crun call st (pre ++ o :: post)) d = snd (cstep call (cfinal call st pre) o).
+Proof.
+  rewrite crun_app, app_nth2; rewrite crun_length; [|lia]. rewrite Nat.sub_diag.
+  cbn [crun]. destruct (cstep call (cfinal call st pre) o). reflexivity.
+Qed.
+
+Lemma cwf_snoc call fl : forall pre st o, CInv fl st ->
+  cwf_hist fl (length (cs_sys st)) (pre ++ [o]) = true ->
+  cwf_hist fl (length (cs_sys st)) pre = true /\
+  cwf_op fl (length (cs_sys (cfinal call st pre))) o = true.
+Proof.
+  induction pre as [|p pre IH]; intros st o J H.
+  - cbn [app cwf_hist cfinal fold_left] in *. apply andb_true_iff in H. destruct H. auto.
+  - cbn [app cwf_hist] in H. apply andb_true_iff in H. destruct H as (Hp & H).
+    destruct (CInv_step call fl st p J Hp) as (J' & L').
+    rewrite <- L' in H. destruct (IH _ o J' H) as (H1 & H2).
+    cbn [cwf_hist cfinal fold_left]. rewrite Hp. cbn [andb]. split; [rewrite <- L'; exact H1|exact H2].
+Qed.
+
+(* ---- C05, state form: at every reachable state, no lookup-family answer depends on the caches *)
+Theorem cache_transparent_state call fl g ifs ops q :
+  cwf_hist fl 0 (ops ++ [CReg q]) = true -> is_lookup q = true ->
+  let st := cfinal call (mkCS g ifs []) ops in
+  snd (cstep call st (CReg q)) =
+  snd (cstep call (mkCS (cs_g st) (cs_if st) (drop_caches (cs_sys st))) (CReg q)).
+Proof.
+  intros Wf Q st.
+  destruct (cwf_snoc call fl ops (mkCS g ifs []) (CReg q) (CInv_init fl g ifs) Wf) as (W1 & W2).
+  destruct (CInv_final call fl ops _ (CInv_init fl g ifs) W1) as (I & C). fold st in I, C, W2.
+  destruct (cstep_sys_CReg call st q) as (_ & _ & _ & ->).
+  destruct (cstep_sys_CReg call (mkCS (cs_g st) (cs_if st) (drop_caches (cs_sys st))) q) as (_ & _ & _ & ->).
+  cbn [cs_g cs_if cs_sys]. apply (transparent_state _ call fl); auto.
+Qed.
+
+(* ---- C05: every lookup-family answer is the uncached answer over the current chain *)
+Theorem answers_are_uncached call fl g ifs ops q :
+  cwf_hist fl 0 (ops ++ [CReg q]) = true -> is_lookup q = true ->
+  let st := cfinal call (mkCS g ifs []) ops in
+  snd (cstep call st (CReg q)) =
+  pure_answer (world_of (cs_g st) (cs_if st)) call (chain_regs (cs_sys st)) q.
+Proof.
+  intros Wf Q st.
+  destruct (cwf_snoc call fl ops (mkCS g ifs []) (CReg q) (CInv_init fl g ifs) Wf) as (W1 & W2).
+  destruct (CInv_final call fl ops _ (CInv_init fl g ifs) W1) as (I & C). fold st in I, C, W2.
+  destruct (cstep_sys_CReg call st q) as (_ & _ & _ & ->).
+  apply (step_answer_chain _ call fl); auto.
+Qed.
+
+(* ---- C05, history form: the answer of a lookup inside a history = its answer after the same
+   mutations with every earlier query erased *)
+Theorem cache_transparent call fl g ifs pre q post :
+  cwf_hist fl 0 (pre ++ [CReg q]) = true -> is_lookup q = true ->
+  nth (length pre) (crun call (mkCS g ifs []) (pre ++ CReg q :: post)) [] =
+  nth (length (erase_lookups pre)) (crun call (mkCS g ifs []) (erase_lookups pre ++ [CReg q])) [].
+Proof.
+  intros Wf Q. rewrite !crun_nth.
+  set (init := mkCS g ifs []).
+  destruct (cwf_snoc call fl pre init (CReg q) (CInv_init fl g ifs) Wf) as (W1 & W2).
+  destruct (erase_sim call fl pre init init) as ((I1 & C1) & (I2 & C2) & (Sg & Si) & E);
+    try apply CInv_init; try apply core_refl; auto; [split; auto|].
+  set (f1 := cfinal call init pre) in *. set (f2 := cfinal call init (erase_lookups pre)) in *.
+  destruct (cstep_sys_CReg call f1 q) as (_ & _ & _ & ->).
+  destruct (cstep_sys_CReg call f2 q) as (_ & _ & _ & ->).
+  cbn [cwf_op] in W2.
+  rewrite (step_answer_chain _ call fl (cs_sys f1) q); auto.
+  rewrite (step_answer_chain _ call fl (cs_sys f2) q); auto.
+  - rewrite Sg, Si. apply pure_answer_ext. intros r. apply core_chain; auto.
+  - destruct E as (<- & _). auto.
+Qed.
+
+(* ---- the static-world instance (Model/RegSys.v alone, any world W) *)
+Lemma static_sim W call fl : forall ops s1 s2,
+  Inv fl s1 -> CV W s1 -> Inv fl s2 -> CV W s2 -> core_eq s1 s2 -> wf_hist fl (length s1) ops = true ->
+  let f1 := final W call s1 ops in
+  let f2 := final W call s2 (filter is_mutation ops) in
+  Inv fl f1 /\ CV W f1 /\ Inv fl f2 /\ CV W f2 /\ core_eq f1 f2 /\
+  length f1 = fold_left n_after ops (length s1).
+Proof.
+  induction ops as [|o ops IH]; intros s1 s2 I1 C1 I2 C2 E Wf; cbn zeta.
+  - cbn. auto 10.
+  - cbn [wf_hist] in Wf. apply andb_true_iff in Wf. destruct Wf as (Wo & Wf).
+    destruct (Inv_step W call fl s1 o I1 Wo) as (I1' & L1').
+    pose proof (CV_step W call fl s1 o I1 C1 Wo) as C1'.
+    cbn [filter final fold_left]. destruct (is_mutation o) eqn:M.
+    + assert (Wo2 : wf_op fl (length s2) o = true) by (destruct E as (<- & _); auto).
+      destruct (Inv_step W call fl s2 o I2 Wo2) as (I2' & L2').
+      pose proof (CV_step W call fl s2 o I2 C2 Wo2) as C2'.
+      cbn [final fold_left]. rewrite <- L1'. apply IH; auto.
+      * apply step_mutation_cong; auto.
+      * rewrite L1'. auto.
+    + rewrite <- L1'. apply IH; auto.
+      * eapply core_trans; [apply core_sym, step_query_core; auto|exact E].
+      * rewrite L1'. auto.
+Qed.
+
+Lemma wf_snoc fl : forall pre n o, wf_hist fl n (pre ++ [o]) = true ->
+  wf_hist fl n pre = true /\ wf_op fl (fold_left n_after pre n) o = true.
+Proof.
+  induction pre as [|p pre IH]; intros n o H.
+  - cbn in *. apply andb_true_iff in H. destruct H. auto.
+  - cbn [app wf_hist fold_left] in *. apply andb_true_iff in H. destruct H as (Hp & H).
+    destruct (IH _ _ H) as (H1 & H2). rewrite Hp. auto.
+Qed.
+
+Theorem cache_transparent_static W call fl pre q :
+  wf_hist fl 0 (pre ++ [q]) = true -> is_lookup q = true ->
+  snd (step W call (final W call [] pre) q) =
+  snd (step W call (final W call [] (filter is_mutation pre)) q).
+Proof.
+  intros Wf Q. destruct (wf_snoc fl pre 0 q Wf) as (W1 & W2).
+  destruct (static_sim W call fl pre [] []) as (I1 & C1 & I2 & C2 & E & L);
+    auto using Inv_nil, CV_nil, core_refl.
+  cbn [length] in L. rewrite <- L in W2.
+  rewrite (step_answer_chain W call fl _ q); auto.
+  rewrite (step_answer_chain W call fl (final W call [] (filter is_mutation pre)) q); auto.
+  - apply pure_answer_ext. intros r. apply core_chain; auto.
+  - destruct E as (<- & _). auto.
+Qed.
+
+(* ---- what re-basing a specification does to the lookup objects (the dependence set) *)
+Theorem spec_rebase_frame call fl g ifs ops x bs :
+  cwf_hist fl 0 ops = true ->
+  let st := cfinal call (mkCS g ifs []) ops in
+  let s := cs_sys st in
+  let s' := cs_sys (fst (cstep call st (CSetSpecBases x bs))) in
+  length s' = length s /\
+  (forall i, i < length s -> touched (cs_g st) x (rs_caches (get s i)) = true ->
+             rs_caches (get s' i) = empty_caches) /\
+  (forall i, touched (cs_g st) x (rs_caches (get s i)) = false ->
+             get s' i = get s i /\
+             forall y, In y (c_required (rs_caches (get s i))) ->
+                       w_sro (world_of (set_spec_bases (cs_g st) x bs) (cs_if st)) y =
+                       w_sro (world_of (cs_g st) (cs_if st)) y).
+Proof.
+  intros Wf st s s'.
+  destruct (CInv_final call fl ops _ (CInv_init fl g ifs) Wf) as (I & C). fold st in I, C.
+  destruct (spec_changed_facts fl (cs_g st) x s I) as (_ & L' & _ & Cl & Un).
+  split; [exact L'|]. split; [exact Cl|].
+  intros i Ti. split; [apply Un; auto|]. intros y Hy.
+  apply untouched_sro with (c := rs_caches (get s i)); auto.
+Qed.
